@@ -18,5 +18,8 @@ CONSTANTS
   MaxChain = 1
   PaethPlanes = 256
   Emit = TRUE
+  DevAvg = FALSE
+  DevArr = FALSE
+  DevNul = FALSE
 INVARIANTS RoundTrip EncoderShape Refines DevExplained PaethOK RowOK EmitInv
 CHECK_DEADLOCK FALSE
